@@ -476,6 +476,15 @@ Definition download : state -> list N -> list N -> option file := download_with 
 (* before 560b667: no status test *)
 Definition download_unrepaired : state -> list N -> list N -> option file := download_with false.
 
+(* the whole download request against the store slice: [s_found] of the gate is what Download
+   finds for the URL; the second component is the record whose bytes are sent *)
+Definition serve_request (s : state) (r : sreq) (serve url : list N) : outcome * option file :=
+  let d := download s serve url in
+  let o := serve_gate {| s_meth := s_meth r; s_keys := s_keys r; s_creds := s_creds r; s_sid := s_sid r;
+                         s_handler := s_handler r; s_hdr := s_hdr r;
+                         s_found := match d with Some _ => true | None => false end |} in
+  (o, match effect_of o with EServed => d | _ => None end).
+
 (* the effect of an upload request on the store slice *)
 Definition apply_effect (s : state) (e : effect) (fid : N) (now : Z) (mime : list N) : state :=
   match e with
